@@ -55,6 +55,14 @@ func commitWindowExps() []cwExp {
 			cwExp{v, "want", []string{"EVICT", "WF2b", "EVICT"}, []string{"RF"}, false, true},
 		)
 	}
+	// the victim misses in the inode cache (the server was restarted) and is held between reading its inode from the disk
+	// and putting it into its cache slot, while the intruder pushes everything - that slot too - out of the cache
+	for _, v := range []string{"GETATTRF", "WRITEF2", "SETATTRF"} {
+		out = append(out,
+			cwExp{v, "inoread", []string{"EVICT"}, []string{"CHECKALL"}, false, true},
+			cwExp{v, "inoread", []string{"EVICT", "EVICT"}, []string{"RF", "CHECKALL"}, false, true},
+		)
+	}
 	// LOOKUP of ".." gives up the directory's lock to take both locks in order: the directory is removed and pushed out of
 	// the inode cache before the victim gets its second lock; the removed directory's handle must be dead afterwards
 	for _, in := range [][]string{{"RMDIRE", "EVICT"}, {"EVICT", "RMDIRE", "EVICT"}, {"RMDIRE"}} {
@@ -197,9 +205,38 @@ func runCommitWindow(k int, e cwExp, t *Trace, seg int) int {
 		}
 		_ = fhB
 	}
+	if e.hold == "inoread" {
+		// cold caches: restart (everything so far was acknowledged stable, except f's last UNSTABLE write: commit it first)
+		commit(0, fhF)
+		s.WaitIdle()
+		s.Shutdown()
+		s2, err := Start(d, true)
+		if err != nil {
+			panic(err)
+		}
+		s = s2
+		mu.Lock()
+		hist = append(hist, HEv{Ev: "restart", Seq: atomic.AddInt64(&seq, 1)})
+		mu.Unlock()
+		sup := s.N.VerifState().Super
+		lo, hi := uint64(sup.InodeStart()), uint64(sup.DataStart())
+		d.Yield = func(kind string, a uint64) {
+			if kind == "read" && a >= lo && a < hi && goid() == atomic.LoadInt64(&victimG) && atomic.CompareAndSwapInt32(&fired, 0, 1) {
+				inWin <- struct{}{}
+				select {
+				case <-resume:
+				case <-time.After(30 * time.Second):
+				}
+			}
+		}
+		defer func() { d.Yield = nil }()
+	}
 	// victim
 	var v *Call
 	switch e.victim {
+	case "GETATTRF":
+		v = NewCall("GETATTR")
+		v.Fh = fhF
 	case "COMMITF":
 		v = NewCall("COMMIT")
 		v.Fh = fhF
@@ -289,6 +326,17 @@ func runCommitWindow(k int, e cwExp, t *Trace, seg int) int {
 			do(cl, c)
 		case "WF2b":
 			wr(cl, fhF, 8192, 4096, 54, 2)
+		case "CHECKALL":
+			// newest first: what is still in the cache is looked at before this walk pushes it out
+			var hs []string
+			for i := len(manyFhs) - 1; i >= 0; i-- {
+				hs = append(hs, manyFhs[i])
+			}
+			for _, h := range append(hs, fhF, fhG, fhK) {
+				c := NewCall("GETATTR")
+				c.Fh = h
+				do(cl, c)
+			}
 		case "RF":
 			c := NewCall("READ")
 			c.Fh, c.Off, c.Cnt = fhF, 0, 16384
